@@ -6,7 +6,7 @@ cd /verif
 if [ -n "$(git -C /repo status --short)" ]; then echo "/repo is dirty; refusing"; exit 1; fi
 export VX_EVIDENCE_DIR=/verif/work/seed_evidence
 OUT=work/seed_regress.txt; : > $OUT
-SEEDS="$*"; [ -z "$SEEDS" ] && SEEDS=$(ls seeded)
+SEEDS="$*"; [ -z "$SEEDS" ] && SEEDS=$(ls seeded | grep "^C")
 for S in $SEEDS; do
   P=${S%%-*}
   case $S in C20-2) P=C13;; C20-3) P=C04;; C05-8) P=C08;; C05-9) P=C08;; C20-9) P=C13;; esac
